@@ -6,6 +6,8 @@ import torch
 
 from . import bind, core, tlc
 
+CG_TOL_SMALL = 1e-3      # the "tight" CG tolerance of the configuration space (the default is 1)
+
 
 def generate(tier, seed, tag):
     r = tlc.run_sharded("MC_E2", tag + "." + tier, 8, dict(Tier=tier, Seed=seed, ValSeed=seed), invariants=["InvPD"], timeout=3000)
@@ -46,9 +48,11 @@ def configuration(cfg, extra=()):
     with contextlib.ExitStack() as st:
         st.enter_context(S.max_cholesky_size(cfg["max_chol"]))
         st.enter_context(S.fast_computations(solves=cfg["fast_solves"], log_prob=cfg["fast_log_prob"]))
-        st.enter_context(S.cg_tolerance(0.01 if cfg["cg_tol_small"] else 1.0))
+        st.enter_context(S.cg_tolerance(CG_TOL_SMALL if cfg["cg_tol_small"] else 1.0))
         if cfg["precond"]:
             st.enter_context(S.min_preconditioning_size(0))
+            if cfg.get("precond_rank"):
+                st.enter_context(S.max_preconditioner_size(cfg["precond_rank"]))
         else:
             st.enter_context(S.max_preconditioner_size(0))
         st.enter_context(S.memory_efficient(cfg["memory_efficient"]))
@@ -84,3 +88,23 @@ def tolerance(dtype, A, path):
     if path.startswith("cg") or path == "stochastic-lanczos-quadrature":
         return max(direct, 2e-2 if dtype == torch.float32 else 1e-3)
     return direct
+
+
+def oracles(beh):
+    """exact answers: from TLC's rational arithmetic, or (large instances) dense float64 solves of the exact integer system"""
+    A = bind.tensor(beh["dense"], torch.float64)
+    B = {k: bind.tensor(v, torch.float64) for k, v in beh["rhs"].items()}
+    if not beh.get("big"):
+        X = {k: rational(v) for k, v in beh["solve"].items()}
+        X["vec"] = X["vec"].squeeze(-1)
+        batch = list(A.shape[:-2])
+        dets = torch.tensor([float(x) for x in beh["dets"]], dtype=torch.float64).reshape(batch)
+        iq = {}
+        for k in ("mat", "vec"):
+            cols = torch.tensor([[c / q["den"] for c in q["cols"]] for q in beh["inv_quad"][k]], dtype=torch.float64)
+            iq[k] = cols.reshape(batch + [cols.shape[-1]])
+        return A, X, dets.log(), iq
+    X = dict(vec=torch.linalg.solve(A, B["vec"].expand(*A.shape[:-1]).unsqueeze(-1)).squeeze(-1) if A.dim() > 2 else torch.linalg.solve(A, B["vec"]),
+             mat=torch.linalg.solve(A, B["mat"]), bc=torch.linalg.solve(A, B["bc"]))
+    iq = dict(mat=(B["mat"] * X["mat"]).sum(-2), vec=(B["vec"].unsqueeze(-1) * torch.linalg.solve(A, B["vec"].unsqueeze(-1).expand(*A.shape[:-1], 1))).sum(-2))
+    return A, X, torch.logdet(A), iq
